@@ -5,6 +5,14 @@
 // MC_PART=1 (default): same-type functions for the eight fixed-width types.
 // MC_PART=2          : gcd/lcm over all 56 ordered (M,N) pairs of different types.
 //
+// MC_PART=3 (round 2): gcd/lcm with long long / unsigned long long against all ten builtin integer
+//                      types (both orders) and a selection of pairs with character types.
+// Round 2 also adds: the character types char, char8_t, char16_t, char32_t, wchar_t for every
+// function constrained with `integral` or unconstrained (midpoint, idiv, ipow, ilog2, abs<T>, gcd,
+// lcm); unsigned long long / long long for the functions that missed them; the runs-of-ones
+// values (c14_common.hpp: extra()) of 32/64-bit types - against the edge values in the quick
+// tier, as the complete (lattice u runs)^2 square in the thorough tier (gcd/lcm: runs x lattice).
+//
 // Spaces: all pairs of 8-bit values; 2^16 x grid and grid x 2^16 for 16-bit types (thorough:
 // the complete 2^16 x 2^16 square for add_sat, midpoint, gcd); lattice^2 for 32/64-bit types.
 #include "c14_common.hpp"
@@ -217,7 +225,7 @@ void midpoint_pointers(Ctx& c, char const* ename)
 template <typename T>
 void unary_math(Ctx& c)
 {
-    Set const& A = full<T>();
+    Set const& A = full2<T>();
     TI const t   = ti<T>();
     auto dom_abs = +[](V x) { return std::is_unsigned_v<T> || x != min_v<T>; };
     auto ref_abs = +[](Ctx&, V x) { return iabs(x); };
@@ -301,7 +309,7 @@ void ipow_fixed(Ctx& c)
 template <typename T>
 void ipows(Ctx& c)
 {
-    Space const sp{{&full<T>(), &exponents<T>()}};
+    Space const sp{{&full2<T>(), &exponents<T>()}};
     TI const t = ti<T>();
     sweep2(c,
         {"ipow(base,exponent)", t, t, "base", "exponent",
@@ -332,28 +340,42 @@ void ipows(Ctx& c)
     }
 }
 
+/// every function that accepts a character type T (add_sat, div_sat, saturate_cast, cmp_* and
+/// in_range are constrained to the ten builtin integer types and reject them: not an API gap,
+/// std:: does the same)
+template <typename T>
+void char_type_cells(Ctx& c, bool with_ipow = true)
+{
+    auto const sp = pair_space2<T, T>(wide16_default(), runs_default(c.r, Runs::cross));
+    unary_math<T>(c);
+    midpoints<T>(c, sp);
+    idivs<T>(c, sp);
+    if (with_ipow) { ipows<T>(c); }
+    gcd_lcm<T, T>(c, sp);
+}
+
 template <typename T>
 void add_jobs(mc::Main& m)
 {
     std::string const t = tname<T>();
     m.job("sat-" + t, {"quick", "thorough"}, [](mc::Reporter& r) {
         Ctx c(r);
-        auto const sp = pair_space<T, T>(wide16_default());
+        auto const sp = pair_space2<T, T>(wide16_default(), runs_default(r, Runs::square, Runs::cross));
         add_sats<T>(c, sp);
         div_sats<T>(c, sp);
     });
     m.job("midpoint-" + t, {"quick", "thorough"}, [](mc::Reporter& r) {
         Ctx c(r);
-        midpoints<T>(c, pair_space<T, T>(wide16_default()));
+        midpoints<T>(c, pair_space2<T, T>(wide16_default(), runs_default(r, Runs::square, Runs::cross)));
     });
     m.job("gcdlcm-" + t, {"quick", "thorough"}, [](mc::Reporter& r) {
         Ctx c(r);
-        gcd_lcm<T, T>(c, pair_space<T, T>(wide16_default()));
+        gcd_lcm<T, T>(c, pair_space2<T, T>(wide16_default(), runs_default(r, Runs::square)));
     });
     m.job("divpow-" + t, {"quick", "thorough"}, [](mc::Reporter& r) {
         Ctx c(r);
         unary_math<T>(c);
-        idivs<T>(c, pair_space<T, T>(wide16_default()));
+        idivs<T>(c, pair_space2<T, T>(wide16_default(), runs_default(r, Runs::square, Runs::cross)));
         ipows<T>(c);
     });
     #if !defined(MC_FLAVOUR_SAN) && !defined(MC_FLAVOUR_CHK) && !defined(MC_FLAVOUR_O2)
@@ -396,7 +418,7 @@ void add_jobs(mc::Main& m)
 
 #endif // MC_PART == 1
 
-#if MC_PART == 2
+#if MC_PART == 2 || MC_PART == 3
 
 template <typename M, typename N>
 void mixed_pair(Ctx& c)
@@ -408,7 +430,7 @@ void mixed_pair(Ctx& c)
     #if defined(MC_FLAVOUR_O2)
         wide = false;
     #endif
-        gcd_lcm<M, N>(c, pair_space<M, N>(wide));
+        gcd_lcm<M, N>(c, pair_space2<M, N>(wide, runs_default(c.r, Runs::cross)));
     }
 }
 
@@ -432,7 +454,24 @@ void add_mixed_jobs(mc::Main& m)
     });
 }
 
-#endif // MC_PART == 2
+#if MC_PART == 3
+using ll  = long long;
+using ull = unsigned long long;
+
+template <typename M>
+void add_ll_jobs(mc::Main& m, std::string const& t)
+{
+    m.job("gcdlcm-mixed-" + t + "-with-ll-ull", {"quick", "thorough"}, [](mc::Reporter& r) {
+        Ctx c(r);
+        mixed_pair<M, ll>(c);
+        mixed_pair<M, ull>(c);
+        mixed_pair<ll, M>(c);
+        mixed_pair<ull, M>(c);
+    });
+}
+#endif
+
+#endif // MC_PART == 2 || MC_PART == 3
 
 } // namespace
 
@@ -454,13 +493,48 @@ int main(int argc, char** argv)
         Ctx c(r);
         unary_math<long long>(c);
         unary_math<unsigned long long>(c);
-        auto const sp = pair_space<long long, long long>(false);
+        auto const sp = pair_space2<long long, long long>(false, runs_default(r, Runs::cross));
         add_sats<long long>(c, sp);
         div_sats<long long>(c, sp);
         midpoints<long long>(c, sp);
         midpoints<unsigned long long>(c, pair_space<unsigned long long, unsigned long long>(false));
         gcd_lcm<long long, long>(c, pair_space<long long, long>(false));
         gcd_lcm<unsigned long, long long>(c, pair_space<unsigned long, long long>(false));
+    });
+    m.job("longlong-2", {"quick", "thorough"}, [](mc::Reporter& r) {
+        // round 2: the cells the first round left out for the two long long types
+        using ll  = long long;
+        using ull = unsigned long long;
+        Ctx c(r);
+        auto const su = pair_space2<ull, ull>(false, runs_default(r, Runs::cross));
+        auto const ss = pair_space2<ll, ll>(false, runs_default(r, Runs::cross));
+        add_sats<ull>(c, su);
+        div_sats<ull>(c, su);
+        idivs<ll>(c, ss);
+        idivs<ull>(c, su);
+        ipows<ll>(c);
+        ipows<ull>(c);
+        gcd_lcm<ll, ll>(c, pair_space2<ll, ll>(false, Runs::edges));
+        gcd_lcm<ull, ull>(c, pair_space2<ull, ull>(false, Runs::edges));
+    });
+    // round 2: the character types (accepted by `integral`-constrained and unconstrained templates)
+    m.job("chartypes-8", {"quick", "thorough"}, [](mc::Reporter& r) {
+        Ctx c(r);
+        char_type_cells<char>(c);
+        char_type_cells<char8_t>(c);
+    });
+    m.job("chartypes-16", {"quick", "thorough"}, [](mc::Reporter& r) {
+        Ctx c(r);
+        char_type_cells<char16_t>(c, false);
+    });
+    m.job("chartypes-16-ipow", {"quick", "thorough"}, [](mc::Reporter& r) {
+        Ctx c(r);
+        ipows<char16_t>(c);
+    });
+    m.job("chartypes-32", {"quick", "thorough"}, [](mc::Reporter& r) {
+        Ctx c(r);
+        char_type_cells<char32_t>(c);
+        char_type_cells<wchar_t>(c);
     });
     m.job("midpoint-pointers", {"quick", "thorough"}, [](mc::Reporter& r) {
         Ctx c(r);
@@ -471,6 +545,34 @@ int main(int argc, char** argv)
         midpoint_pointers<int>(c, "int");
         midpoint_pointers<Wide>(c, "struct{char[12]}");
         midpoint_pointers<int const>(c, "int const");
+    });
+#elif MC_PART == 3
+    add_ll_jobs<i8>(m, "i8");
+    add_ll_jobs<u8>(m, "u8");
+    add_ll_jobs<i16>(m, "i16");
+    add_ll_jobs<u16>(m, "u16");
+    add_ll_jobs<i32>(m, "i32");
+    add_ll_jobs<u32>(m, "u32");
+    add_ll_jobs<i64>(m, "i64");
+    add_ll_jobs<u64>(m, "u64");
+    m.job("gcdlcm-mixed-ll-ull", {"quick", "thorough"}, [](mc::Reporter& r) {
+        Ctx c(r);
+        mixed_pair<ll, ull>(c);
+        mixed_pair<ull, ll>(c);
+    });
+    m.job("gcdlcm-mixed-chartypes", {"quick", "thorough"}, [](mc::Reporter& r) {
+        Ctx c(r);
+        mixed_pair<char16_t, i8>(c);
+        mixed_pair<i8, char16_t>(c);
+        mixed_pair<char16_t, i32>(c);
+        mixed_pair<u8, char>(c);
+        mixed_pair<char, u32>(c);
+        mixed_pair<char8_t, i16>(c);
+        mixed_pair<char32_t, i32>(c);
+        mixed_pair<i64, char32_t>(c);
+        mixed_pair<wchar_t, u16>(c);
+        mixed_pair<wchar_t, char32_t>(c);
+        mixed_pair<char32_t, ll>(c);
     });
 #else
     add_mixed_jobs<i8>(m);
